@@ -47,3 +47,21 @@ Theorem C15_serializers_agree_on_quads :
     encode_quad Generic (quad_inv terms) t (rep_inv rp) = Ok (t', rep_inv rp', rows) /\ rep_ok rp'.
 Proof. exact encode_quad_rdflib. Qed.
 Print Assumptions C15_serializers_agree_on_quads.
+
+(* whole parses: the flat and the grouped entry point of an integration read the same events (and end
+   the same way); non-strict mode *)
+From PJ.Model Require Import Wire.
+From PJ.Proofs Require Import RdflibFlush RdflibBytes WireRT.
+Theorem C15_flat_and_grouped_entry_points_agree :
+  forall (ig : integ) (g1 g2 : bool) (b : list N), parse_stream ig g1 false b = parse_stream ig g2 false b.
+Proof. exact parse_entry_points_agree. Qed.
+Print Assumptions C15_flat_and_grouped_entry_points_agree.
+
+(* ... and on byte streams without quoted triples (well-formed frames, written delimited) the rdflib
+   parser is the generic parser, for every flag combination *)
+Theorem C15_parsers_agree_on_bytes :
+  forall (fs : list frame) (grouped strict : bool),
+    hint (firstn 3 (write_delimited fs)) = true -> Forall sendable fs -> rows_rdf11 (flat_map f_rows fs) ->
+    parse_stream Rdflib grouped strict (write_delimited fs) = parse_stream Generic grouped strict (write_delimited fs).
+Proof. exact rdflib_parser_is_generic. Qed.
+Print Assumptions C15_parsers_agree_on_bytes.
